@@ -39,9 +39,10 @@ TextOK(n, cfg, lex, el) ==
 
 IsDefaultExtraEl(DS, T, cfg, p, el) ==
     \E n \in SChildren(DS, SPath(p)) :
-        /\ n.kind = "leaf" /\ n.dflt # << >>
+        /\ n.kind \in {"leaf", "leaflist"} /\ n.dflt # << >>
         /\ ChildPath(p, n) \notin DOMAIN T.leaf
-        /\ el.n = Name(n) /\ TextOK(n, cfg, n.dflt[1], el)
+        \* a leaf-list default comes as one element per default value
+        /\ el.n = Name(n) /\ \E i \in DOMAIN n.dflt : TextOK(n, cfg, n.dflt[i], el)
 
 RECURSIVE ElemCheck(_, _, _, _, _, _, _)
 RECURSIVE ItemCheck(_, _, _, _, _, _, _)
